@@ -299,8 +299,15 @@ def install_file_info_stub(eng, state):
     eng.overrides[(PZ, "SevenZipFile._make_file_info")] = mk
     # symlink members store the link target text: only readlink() touches the filesystem; the real
     # Worker._find_link_target (which walks the members registered so far) runs
+    # (contract: readlink of a path whose name contains "unreadable" fails with EIO – the link vanished or became
+    # unreadable between lstat and readlink)
+    def _readlink(eng, path):
+        if "unreadable" in str(path):
+            raise ModelRaise("OSError", [5, "Input/output error"], cls=OSError)
+        return "target/of/" + str(path)
+
     for mod in (PZ, "py7zr.helpers"):
-        eng.overrides[(mod, "readlink")] = lambda eng, path: "target/of/" + str(path)
+        eng.overrides[(mod, "readlink")] = _readlink
 
 
 # ===================================================================================== read side
